@@ -14,6 +14,8 @@
     spelling, and leaves the original's metadata as it was when the block adds no key.
 -/
 import TdVerif.Gen.CtxTable
+import TdVerif.Gen.C02Src
+import TdVerif.Model.C17Pins
 import TdVerif.Model.C17Ctx
 import TdVerif.Lemmas.C17
 
@@ -31,6 +33,10 @@ theorem signatures_match : Gen.ctxSignatures = modelParams := by decide +kernel
 theorem recorded_attr_table :
     Gen.ctxAttr = (Gen.ctxOpNames.map fun m => (m, if m = "lock_" ∨ m = "unlock_" then "is_locked" else "")) := by
   decide +kernel
+
+/-- every function `Model/C17Ctx.lean` transcribes (`_as_context_manager`, `__enter__`, `__exit__`, every `_reverse_*`) has the AST it was
+transcribed from: an edit of one of them breaks this obligation even when no sampled block behaves differently -/
+theorem transcribed_sources_unchanged : Gen.c17Sources = c17Pinned := by decide +kernel
 
 /-- `_reverse_transpose` recovers the two dims from every spelling that binds -/
 theorem transpose_reverse_reads_every_spelling (c : Call) (d0 d1 : Int) (y out : St)
@@ -1009,6 +1015,21 @@ theorem flatten_keys_exit_rebinds (c : Call) (ch : Char) (out ys : Binds)
     rw [splitC_joinSep ch p.1 hk.1 hk.2]
   refine ⟨writeBackB false out ys, ?_, writeBackB_unlocked_rebinds ys out hpw⟩
   simp only [exitBinds, invBinds, hop, bind, Except.bind, pure, Except.pure, hback]
+
+/-! ## the original is a temporary -/
+
+/-- a context-managed call on a TEMPORARY original whose method returned a new object never raises at exit, whatever the op, the
+spelling and the edits, and the yielded object is left exactly as the block left it (base.py:__exit__ after fix ab20bfa) -/
+theorem temp_block_returns_yielded (name : String) (c : Call) (edits : List Edit) (s : St) (y : Yielded) (y' : St)
+    (hf : fwd name c s = .ok y) (he : applyEdits y.st edits = .ok y') (hns : y.isSelf = false) :
+    withTempBlock name c edits s = .ok y' := by
+  simp [withTempBlock, hf, he, hns, bind, Except.bind, pure, Except.pure]
+
+/-- … and when the method returned the original itself, the yielded object keeps it alive: the block is the ordinary block -/
+theorem temp_block_self_is_block (name : String) (c : Call) (edits : List Edit) (s : St) (y : Yielded)
+    (hf : fwd name c s = .ok y) (hs : y.isSelf = true) :
+    withTempBlock name c edits s = withBlock name c edits s := by
+  simp only [withTempBlock, withBlock, hf, bind, Except.bind, hs, if_true]
 
 example : (withBlock "transpose" ⟨[], [("dim0", .int 1), ("dim1", .int (-1))]⟩ [.addKey [['z']]]
       ⟨[1, 2, 3], none, [[['a']]], false⟩).toOption = some ⟨[1, 2, 3], none, [[['a']], [['z']]], false⟩ := by decide
